@@ -8,5 +8,6 @@ wt=/tmp/wt-mut-$$
 git -C /repo worktree add -q --detach "$wt" HEAD || exit 9
 trap 'git -C /repo worktree remove --force "$wt" >/dev/null 2>&1' EXIT
 (cd "$wt" && git apply "$patch") || { echo "patch does not apply"; exit 9; }
-cd /verif && VERIF_REPO="$wt" ./check "$prop" --no-gate "$@" 2>&1 | grep -E "^(VIOLATION|violation|KNOWN|HARNESS|runs=)" | head -8
-exit ${PIPESTATUS[0]}
+sf=/dev/shm/vp-stop-$$; rm -f $sf
+cd /verif && VERIF_STOP_FILE=$sf VERIF_REPO="$wt" ./check "$prop" --no-gate "$@" 2>&1 | grep -E "^(VIOLATION|violation|KNOWN|HARNESS|runs=)" | head -8
+rc=${PIPESTATUS[0]}; rm -f $sf; exit $rc
